@@ -1,0 +1,231 @@
+//! Verification hooks.
+//!
+//! Everything in this module is compiled only with the off-by-default cargo
+//! feature `verif`. The hooks expose existing private machinery to an external
+//! monitoring harness through thin wrappers; they do not change the behavior of
+//! any other code in the crate.
+
+use std::cell::Cell;
+use std::io::{self, BufRead, Read};
+
+use crate::{input, Format};
+
+// ---------------------------------------------------------------------------
+// Path counters
+// ---------------------------------------------------------------------------
+
+macro_rules! xt_verif_counters {
+	($($name:ident),* $(,)?) => {
+		/// Identifiers of the path counters bumped by `vhit!`.
+		#[allow(non_camel_case_types, clippy::upper_case_acronyms)]
+		#[derive(Clone, Copy)]
+		#[repr(usize)]
+		pub enum Counter { $($name),* }
+
+		/// Names of all path counters, indexed by `Counter as usize`.
+		pub const COUNTER_NAMES: &[&str] = &[$(stringify!($name)),*];
+	};
+}
+
+xt_verif_counters! {
+	INPUT_SLICE_FROM_READER_EOF,
+	INPUT_READER_BARE,
+	INPUT_READER_CHAINED_PREFIX,
+	INPUT_COW_FROM_READER,
+	DETECT_MSGPACK,
+	DETECT_JSON,
+	DETECT_YAML,
+	DETECT_TOML,
+	DETECT_NONE,
+	JSON_SLICE_PATH,
+	JSON_READER_PATH,
+	MSGPACK_SLICE_PATH,
+	MSGPACK_READER_PATH,
+	YAML_SLICE_UTF8_PATH,
+	YAML_SLICE_REENCODE_PATH,
+	YAML_READER_PATH,
+	TOML_SECOND_USE_REFUSED,
+	TOML_NON_TABLE_ROOT_REFUSED,
+	CHUNKER_DOCUMENT_EMITTED,
+	PARSER_NEW,
+	PARSER_DROP,
+	EVENT_NEW,
+	EVENT_DROP,
+	READ_HANDLER_OK,
+	READ_HANDLER_OVER_REPORT,
+	READ_HANDLER_ERROR,
+}
+
+const N_COUNTERS: usize = COUNTER_NAMES.len();
+
+thread_local! {
+	static COUNTERS: [Cell<u64>; N_COUNTERS] = [const { Cell::new(0) }; N_COUNTERS];
+}
+
+/// Bumps a path counter of the current thread.
+#[inline]
+pub fn hit(counter: Counter) {
+	COUNTERS.with(|c| {
+		let cell = &c[counter as usize];
+		cell.set(cell.get().wrapping_add(1));
+	});
+}
+
+/// Returns the current thread's path counters, indexed like [`COUNTER_NAMES`].
+pub fn hits() -> Vec<u64> {
+	COUNTERS.with(|c| c.iter().map(Cell::get).collect())
+}
+
+/// Resets the current thread's path counters.
+pub fn reset_hits() {
+	COUNTERS.with(|c| c.iter().for_each(|cell| cell.set(0)));
+}
+
+// ---------------------------------------------------------------------------
+// Format detection
+// ---------------------------------------------------------------------------
+
+/// Runs format detection on a slice, exactly as `translate_slice(.., None, ..)`
+/// would.
+pub fn detect_slice(b: &[u8]) -> io::Result<Option<Format>> {
+	let mut handle = input::Handle::from_slice(b);
+	crate::detect::detect_format(&mut handle)
+}
+
+/// Runs format detection on a reader, exactly as `translate_reader(.., None,
+/// ..)` would.
+pub fn detect_reader<R: Read>(r: R) -> io::Result<Option<Format>> {
+	let mut handle = input::Handle::from_reader(r);
+	crate::detect::detect_format(&mut handle)
+}
+
+// ---------------------------------------------------------------------------
+// Input handle
+// ---------------------------------------------------------------------------
+
+/// One operation on a borrowed input reference.
+#[derive(Clone, Copy, Debug, PartialEq, Eq)]
+pub enum Op {
+	/// `Read::read` with a buffer of this size (ignored for slice references).
+	Read(usize),
+	/// `Ref::prefix` with this size hint.
+	Prefix(usize),
+}
+
+/// What an [`Op`] observed.
+#[derive(Debug)]
+pub enum Obs {
+	Read(io::Result<Vec<u8>>),
+	Prefix(io::Result<Vec<u8>>),
+}
+
+/// The result of one `borrow_mut` on a [`Handle`].
+#[derive(Debug)]
+pub struct Borrow {
+	/// `Some(view)` if the reference was a slice (the complete view is given).
+	pub slice_view: Option<Vec<u8>>,
+	/// One observation per applicable operation (reads are skipped on slices).
+	pub obs: Vec<Obs>,
+}
+
+/// What a [`Handle`] turned into when ownership was taken.
+pub enum Owned<'i> {
+	Slice(Vec<u8>),
+	Reader(Box<dyn Read + 'i>),
+}
+
+/// A thin public wrapper around the crate's rewindable input handle.
+pub struct Handle<'i>(input::Handle<'i>);
+
+impl<'i> Handle<'i> {
+	pub fn from_slice(b: &'i [u8]) -> Self {
+		Handle(input::Handle::from_slice(b))
+	}
+
+	pub fn from_reader<R: Read + 'i>(r: R) -> Self {
+		Handle(input::Handle::from_reader(r))
+	}
+
+	/// Borrows the input once and applies the operations in order.
+	pub fn borrow(&mut self, ops: &[Op]) -> Borrow {
+		let mut input_ref = self.0.borrow_mut();
+		let slice_view = match &input_ref {
+			input::Ref::Slice(b) => Some(b.to_vec()),
+			input::Ref::Reader(_) => None,
+		};
+		let mut obs = Vec::with_capacity(ops.len());
+		for op in ops {
+			match *op {
+				Op::Prefix(n) => obs.push(Obs::Prefix(input_ref.prefix(n).map(<[u8]>::to_vec))),
+				Op::Read(n) => {
+					if let input::Ref::Reader(r) = &mut input_ref {
+						let mut buf = vec![0u8; n];
+						obs.push(Obs::Read(r.read(&mut buf).map(|len| buf[..len].to_vec())));
+					}
+				}
+			}
+		}
+		Borrow { slice_view, obs }
+	}
+
+	/// Takes ownership the way streaming formats do.
+	pub fn into_input(self) -> Owned<'i> {
+		match input::Input::from(self.0) {
+			input::Input::Slice(b) => Owned::Slice(b.into_owned()),
+			input::Input::Reader(r) => Owned::Reader(r),
+		}
+	}
+
+	/// Takes ownership the way slice-only formats do.
+	pub fn into_cow(self) -> io::Result<Vec<u8>> {
+		let cow: std::borrow::Cow<'i, [u8]> = self.0.try_into()?;
+		Ok(cow.into_owned())
+	}
+}
+
+// ---------------------------------------------------------------------------
+// YAML re-encoder, chunker and parser
+// ---------------------------------------------------------------------------
+
+/// Names the encoding that YAML encoding detection selects for a prefix.
+pub fn yaml_encoding_detect(prefix: &[u8]) -> &'static str {
+	crate::yaml::verif_encoding_detect(prefix)
+}
+
+/// Wraps a reader with the YAML re-encoder, detecting its encoding.
+pub fn yaml_reencoder<'r, R: BufRead + 'r>(r: R) -> io::Result<Box<dyn Read + 'r>> {
+	crate::yaml::verif_reencoder(r)
+}
+
+/// Wraps a reader with the YAML re-encoder for a named encoding (one of the
+/// names returned by [`yaml_encoding_detect`]).
+pub fn yaml_reencoder_as<'r, R: BufRead + 'r>(r: R, encoding: &str) -> Option<Box<dyn Read + 'r>> {
+	crate::yaml::verif_reencoder_as(r, encoding)
+}
+
+/// Runs the YAML chunker directly over a reader, returning up to `max_docs`
+/// items as (content, is_collection) and dropping the chunker afterwards.
+pub fn yaml_chunks<R: Read>(r: R, max_docs: usize) -> Vec<io::Result<(String, bool)>> {
+	crate::yaml::verif_chunks(r, max_docs)
+}
+
+/// Runs the raw YAML parser over a reader for at most `max_events` events (or
+/// until the stream ends or fails), then drops it. Returns the number of events
+/// produced and whether the parser failed.
+pub fn yaml_events_then_drop<R: Read>(r: R, max_events: usize) -> (usize, bool) {
+	crate::yaml::verif_events_then_drop(r, max_events)
+}
+
+// ---------------------------------------------------------------------------
+// MessagePack value sizes
+// ---------------------------------------------------------------------------
+
+/// Calls the MessagePack size calculator used for slice input.
+pub fn msgpack_value_size(input: &[u8], depth_limit: usize) -> Result<usize, String> {
+	crate::msgpack::verif_next_value_size(input, depth_limit)
+}
+
+/// The MessagePack depth limit constant.
+pub fn msgpack_depth_limit() -> usize {
+	crate::msgpack::verif_depth_limit()
+}
